@@ -177,7 +177,7 @@ class Engine:
     def _assigned_from(self, f: FuncInfo, attr, param):
         for st in walk_no_nested(f.node):
             if isinstance(st, ast.Assign) and any(isinstance(t, ast.Attribute) and t.attr == attr for t in st.targets):
-                if isinstance(st.value, ast.Name) and st.value.id == param:
+                if any(isinstance(n, ast.Name) and n.id == param for n in ast.walk(st.value)):
                     return True
         return False
 
